@@ -484,9 +484,14 @@ impl Gen {
         }
         o.follow = rng.chance(1, 3);
         o.sort_by_name = rng.chance(1, 3);
-        match rng.below(6) {
+        match rng.below(7) {
             0 => o.dirs_first = true,
             1 => o.files_first = true,
+            2 => {
+                // both: grouped by kind, one way or the other
+                o.dirs_first = true;
+                o.files_first = true;
+            },
             _ => {},
         }
         o.contents_first = rng.chance(1, 3);
